@@ -147,10 +147,15 @@ def run_check(prop, tier, jobs, level_note, assumptions, bounds, seed=None, extr
             seen_roles[role] = seen_roles.get(role, 0) + 1
             reproduced = False
             res = None
-            for attempt in range(max(1, job.native_repeats)):
-                res = native_run(binary, job.harness, job.params, r.get("inputs", []), env_extra, timeout=job.native_timeout)
-                if res["code"] == 101 or (res["code"] == "timeout" and r.get("kind") == "deadlock"):
-                    reproduced = True
+            cands = [r.get("inputs", [])] + list(r.get("alt_inputs", []))
+            for cand in cands:
+                for attempt in range(max(1, job.native_repeats)):
+                    res = native_run(binary, job.harness, job.params, cand, env_extra, timeout=job.native_timeout)
+                    if res["code"] == 101 or (res["code"] == "timeout" and r.get("kind") == "deadlock"):
+                        reproduced = True
+                        r["inputs"] = cand
+                        break
+                if reproduced:
                     break
             if reproduced and r.get("kind") != "deadlock":
                 # also in the dev profile (the profile whose arithmetic checks the MIR reflects)
@@ -181,7 +186,7 @@ def run_check(prop, tier, jobs, level_note, assumptions, bounds, seed=None, extr
             res = native_run(binary, job.harness, job.params, r["inputs"], env_extra, timeout=job.native_timeout)
             exp = [o[1] for o in r.get("observations", [])]
             got = res["obs"]["obs"] if res["obs"] else None
-            if res["code"] == 0 and got == exp:
+            if res["code"] == 0 and (got == exp or r.get("hash_dependent")):
                 validated += 1
             elif res["code"] == 3 and job.opts.get("allow_native_assume_fail"):
                 pass
